@@ -33,6 +33,14 @@ type IVal struct {
 	Typ  *types.Basic
 	Dyn  types.Type // dynamic type of an integer held in an interface (named type)
 	Lib  bool       // opaque value made by errors.New / fmt.Errorf
+	Lit  *ast.FuncLit // function value: the literal …
+	Env2 []iscope     // … and the static scopes it was created in (innermost first)
+}
+
+// iscope says which heap prefix holds the variables declared in a source range.
+type iscope struct {
+	pos, end token.Pos
+	prefix   string
 }
 
 func (v IVal) known() bool { return v.K == 'i' || v.K == 'b' }
@@ -107,6 +115,12 @@ type Interp struct {
 	// OnCall observes calls; a non-empty string is appended to the path trace.
 	// If results != nil they replace the default (unknown) results.
 	OnCall func(call *ast.CallExpr, args []IVal) (event string, results []IVal)
+	// OnCallHeap is like OnCall but also sees the heap (struct arguments can
+	// be inspected: fields of a 't' value live under Ref + "." + name); it
+	// takes precedence over OnCall.
+	OnCallHeap func(call *ast.CallExpr, args []IVal, heap map[string]IVal) (event string, results []IVal)
+	// Heap0 presets heap locations (e.g. the fields of a struct a hook returns).
+	Heap0 map[string]IVal
 	// OnStore observes element stores `x[i] = v` (after the bounds check).
 	OnStore func(lhs *ast.IndexExpr, idx, val IVal, tainted bool)
 	// Override fixes the value of expression nodes (used to replay a loop
@@ -122,6 +136,7 @@ type Interp struct {
 	NoInline func(cf *Func) bool
 
 	cf     *Func  // function of the current frame
+	scopes []iscope // static scopes of the current frame (closures: the literal, then its definers)
 	prefix string // heap key prefix of the current frame
 	depth  int
 	exits  *[]frameExit
@@ -202,6 +217,7 @@ func (ip *Interp) Run() *IResult {
 	ip.vkeys = map[types.Object]string{}
 	ip.seenFn = map[*Func]bool{}
 	ip.prefix, ip.depth = "", 0
+	ip.scopes = []iscope{{ip.F.Node().Pos(), ip.F.Node().End(), ""}}
 	ip.enter(ip.F)
 	ip.inputs = map[types.Object]bool{}
 	for _, p := range ip.F.Params() {
@@ -220,6 +236,9 @@ func (ip *Interp) Run() *IResult {
 		return ip.res
 	}
 	start := &istate{blk: ip.g.G.Blocks[0], heap: map[string]IVal{}}
+	for k, v := range ip.Heap0 {
+		start.heap[k] = v
+	}
 	for _, e := range ip.runFrame(start) {
 		ip.res.Exits = append(ip.res.Exits, IExit{Ret: e.ret, Tainted: e.st.tainted, Trace: e.st.trace, Heap: e.st.heap, Vals: e.vals})
 	}
@@ -489,6 +508,15 @@ func (ip *Interp) varKey(o types.Object) string {
 	if !ok {
 		k = "v" + strconv.Itoa(int(o.Pos())) + ":" + o.Name()
 		ip.vkeys[o] = k
+	}
+	// a variable lives in the frame of the innermost enclosing function it is declared in
+	for _, sc := range ip.scopes {
+		if sc.pos <= o.Pos() && o.Pos() <= sc.end {
+			if sc.prefix != "" {
+				return sc.prefix + k
+			}
+			return k
+		}
 	}
 	if ip.prefix != "" {
 		return ip.prefix + k
@@ -1256,7 +1284,7 @@ func (ip *Interp) eval0(st *istate, e ast.Expr) IVal {
 		}
 		return val
 	case *ast.FuncLit:
-		return IVal{K: 'f'}
+		return IVal{K: 'f', Lit: x, Env2: append([]iscope(nil), ip.scopes...)}
 	case *ast.KeyValueExpr:
 		return ip.eval(st, x.Value)
 	}
@@ -1414,8 +1442,12 @@ func (ip *Interp) call(st *istate, call *ast.CallExpr) []IVal {
 		return nil
 	}
 	event, over := "", []IVal(nil)
-	if ip.OnCall != nil {
-		event, over = ip.OnCall(call, args)
+	if ip.OnCallHeap != nil || ip.OnCall != nil {
+		if ip.OnCallHeap != nil {
+			event, over = ip.OnCallHeap(call, args, st.heap)
+		} else {
+			event, over = ip.OnCall(call, args)
+		}
 		if event != "" {
 			// more than three consecutive repetitions add nothing (and would
 			// keep loop states apart forever)
@@ -1616,6 +1648,32 @@ func (ip *Interp) returnValues(st *istate, ret *ast.ReturnStmt) []IVal {
 }
 
 // inlinable reports whether the call is evaluated in line.
+// closureOf returns the function value of a call through a local variable or
+// parameter that holds a function literal.
+func (ip *Interp) closureOf(st *istate, call *ast.CallExpr) (IVal, *Func) {
+	id, ok := ast.Unparen(call.Fun).(*ast.Ident)
+	if !ok || st == nil || ip.depth >= 4 {
+		return IVal{}, nil
+	}
+	if _, isVar := ObjOf(ip.info, id).(*types.Var); !isVar {
+		return IVal{}, nil
+	}
+	key, _, ok := ip.lvalue(st, id)
+	if !ok {
+		return IVal{}, nil
+	}
+	v, found := st.heap[key]
+	if !found || v.K != 'f' || v.Lit == nil {
+		return IVal{}, nil
+	}
+	rel := strings.TrimPrefix(strings.TrimPrefix(ip.F.Pkg.PkgPath, ModPath), "/")
+	lf := ip.P.LitFunc(rel, v.Lit)
+	if lf == nil || lf.Body == nil {
+		return IVal{}, nil
+	}
+	return v, lf
+}
+
 func (ip *Interp) inlinable(call *ast.CallExpr) *Func {
 	if ip.depth >= 4 {
 		return nil
@@ -1667,8 +1725,12 @@ func (ip *Interp) inlineCalls(st *istate, n ast.Node) []*istate {
 				visit(a, lazy)
 			}
 			if !lazy {
-				if _, done := st.calls[y]; !done && ip.inlinable(y) != nil {
-					calls = append(calls, y)
+				if _, done := st.calls[y]; !done {
+					if ip.inlinable(y) != nil {
+						calls = append(calls, y)
+					} else if _, lf := ip.closureOf(st, y); lf != nil {
+						calls = append(calls, y)
+					}
 				}
 			}
 			return
@@ -1704,6 +1766,10 @@ func (ip *Interp) inlineCalls(st *istate, n ast.Node) []*istate {
 // outcome with the results cached under the call.
 func (ip *Interp) invoke(st *istate, call *ast.CallExpr) []*istate {
 	cf := ip.inlinable(call)
+	var closure IVal
+	if cf == nil {
+		closure, cf = ip.closureOf(st, call)
+	}
 	if cf == nil {
 		return []*istate{st}
 	}
@@ -1713,26 +1779,29 @@ func (ip *Interp) invoke(st *istate, call *ast.CallExpr) []*istate {
 	for i, a := range call.Args {
 		args[i] = ip.eval(st, a)
 	}
-	if ip.OnCall != nil {
-		if event, over := ip.OnCall(call, args); event != "" || over != nil {
+	if ip.OnCall != nil || ip.OnCallHeap != nil {
+		var event string
+		var over []IVal
+		if ip.OnCallHeap != nil {
+			event, over = ip.OnCallHeap(call, args, st.heap)
+		} else {
+			event, over = ip.OnCall(call, args)
+		}
+		if event != "" || over != nil {
 			if event != "" {
 				n := len(st.trace)
 				if !(n >= 3 && st.trace[n-1] == event && st.trace[n-2] == event && st.trace[n-3] == event) {
 					st.trace = append(append([]string(nil), st.trace...), event)
 				}
 			}
-			sig, _ := info.TypeOf(call.Fun).Underlying().(*types.Signature)
-			if over == nil && sig != nil {
-				over = make([]IVal, sig.Results().Len())
-				for i := range over {
-					over[i] = IVal{K: 'u'}
+			// an event without results only observes the call: it is still evaluated in line
+			if over != nil {
+				if st.calls == nil {
+					st.calls = map[*ast.CallExpr][]IVal{}
 				}
+				st.calls[call] = over
+				return []*istate{st}
 			}
-			if st.calls == nil {
-				st.calls = map[*ast.CallExpr][]IVal{}
-			}
-			st.calls[call] = over
-			return []*istate{st}
 		}
 	}
 	// receiver
@@ -1769,19 +1838,26 @@ func (ip *Interp) invoke(st *istate, call *ast.CallExpr) []*istate {
 		info   *types.Info
 		g      *Graph
 		bnd    *Bounds
-	}{ip.cf, ip.prefix, ip.depth, ip.info, ip.g, ip.bnd}
+		scopes []iscope
+	}{ip.cf, ip.prefix, ip.depth, ip.info, ip.g, ip.bnd, ip.scopes}
 	callerPrefix := ip.prefix
 	framePrefix := fmt.Sprintf("%sc%d/", callerPrefix, call.Pos())
 	ip.prefix = framePrefix
 	ip.depth++
 	ip.enter(cf)
+	if closure.Lit != nil {
+		// the literal's own variables in the new frame, captured ones where they were declared
+		ip.scopes = append([]iscope{{closure.Lit.Pos(), closure.Lit.End(), framePrefix}}, closure.Env2...)
+	} else {
+		ip.scopes = []iscope{{cf.Node().Pos(), cf.Node().End(), framePrefix}}
+	}
 	restore := func() {
-		ip.cf, ip.prefix, ip.depth, ip.info, ip.g, ip.bnd = saved.cf, saved.prefix, saved.depth, saved.info, saved.g, saved.bnd
+		ip.cf, ip.prefix, ip.depth, ip.info, ip.g, ip.bnd, ip.scopes = saved.cf, saved.prefix, saved.depth, saved.info, saved.g, saved.bnd, saved.scopes
 	}
 	sub := st.fork()
 	sub.calls = nil
 	// bind receiver and parameters
-	if recv != nil && cf.Decl.Recv != nil {
+	if recv != nil && cf.Decl != nil && cf.Decl.Recv != nil {
 		for _, fl := range cf.Decl.Recv.List {
 			for _, nm := range fl.Names {
 				if o := ip.info.Defs[nm]; o != nil {
@@ -1791,7 +1867,16 @@ func (ip *Interp) invoke(st *istate, call *ast.CallExpr) []*istate {
 		}
 	}
 	params := cf.Params()
-	sig := cf.Obj.Type().(*types.Signature)
+	var sig *types.Signature
+	if cf.Obj != nil {
+		sig = cf.Obj.Type().(*types.Signature)
+	} else if t, ok := ip.info.TypeOf(cf.Lit).(*types.Signature); ok {
+		sig = t
+	}
+	if sig == nil {
+		restore()
+		return []*istate{st}
+	}
 	for i, pv := range params {
 		var v IVal
 		switch {
